@@ -190,7 +190,15 @@ impl Holder {
         let presentation_disclosures = self
             .disclosure_paths
             .iter()
-            .filter(|disclosure_path| !self.redacted.contains(&disclosure_path.path))
+            .filter(|disclosure_path| {
+                // withhold a claim when it, or a disclosable claim enclosing it, was redacted;
+                // redacting a path that is not disclosable changes nothing
+                !self.redacted.iter().any(|redacted| {
+                    self.disclosure_paths.iter().any(|dp| dp.path == *redacted)
+                        && (disclosure_path.path == *redacted
+                            || disclosure_path.path.starts_with(&format!("{}/", redacted)))
+                })
+            })
             .map(|disclosure_path| disclosure_path.disclosure.disclosure())
             .collect::<Vec<_>>();
 
